@@ -201,3 +201,36 @@ fn jit_memory_new_nostd() {
         Err(_) => assert!(skew != 0 || len < 4096, "ensures: suitable memory is accepted"),
     }
 }
+
+// ------------------------------------------------------------------ emit_bytes! (C12)
+// The sizing argument of JitMemory::new ("the buffer is at least as large as what the counting pass sized")
+// needs every emitN to succeed whenever its bytes fit - INCLUDING when they end exactly at the end of the
+// buffer - to write them little-endian at `offset`, to touch nothing else, and to advance `offset` by N in
+// both passes.
+#[kani::proof]
+#[kani::unwind(66)]
+fn emit_bytes_contract() {
+    let mut buf: [u8; 64] = kani::any();
+    let before = buf;
+    let len: usize = kani::any();
+    let off: usize = kani::any();
+    let which: u8 = kani::any();
+    kani::assume(which < 4 && len <= 64);
+    let size = 1usize << which;
+    kani::assume(off <= 64 && off + size <= len);
+    let write_enabled: bool = kani::any();
+    let v: u64 = kani::any();
+    {
+        let mut mem = JitMemory { contents: &mut buf[..len], write_enabled, offset: off };
+        let jit = JitCompiler::new();
+        match which { 0 => jit.emit1(&mut mem, v as u8), 1 => jit.emit2(&mut mem, v as u16), 2 => jit.emit4(&mut mem, v as u32), _ => jit.emit8(&mut mem, v) }
+        assert!(mem.offset == off + size, "ensures: offset advances by the operand size in the counting pass and in the emission pass alike");
+    }
+    let k: usize = kani::any();
+    kani::assume(k < 64);
+    if write_enabled && off <= k && k < off + size {
+        assert!(buf[k] == (v >> (8 * (k - off))) as u8, "ensures: the operand is written little-endian at offset");
+    } else {
+        assert!(buf[k] == before[k], "ensures: no other byte changes (none at all in the counting pass)");
+    }
+}
